@@ -2,6 +2,7 @@ import UtilModel.CSync.RWProps
 import UtilModel.CSync.MxProps
 import UtilModel.CSync.RWObsC02
 import UtilModel.CSync.MxObsC02
+import UtilModel.CSync.Transfer
 open UtilModel UtilModel.CSync
 #print axioms UtilModel.accepts_sound
 #print axioms RW.reachable_inv
@@ -17,3 +18,6 @@ open UtilModel UtilModel.CSync
 #print axioms RW.C02_obs_rw
 #print axioms Mx.C02_obs_mutex
 #print axioms UtilModel.monitor_of_simulation
+#print axioms UtilModel.acceptsH_sound
+#print axioms C02_accepted_rw
+#print axioms C02_accepted_mutex
